@@ -245,3 +245,42 @@ Proof.
       eapply IH; [exact Hg|exact Hflush| |exact Hr1]. apply Hnil. apply ss_app_inv in Ho. apply Ho.
     + try rewrite app_nil_r in Ho. inv Hs. cbn [windows_of app]. eapply IH; [exact Hg|exact Hi|exact Ho|exact Hr1].
 Qed.
+
+(* a session is closed by an arrival only when the gap to its last event is exceeded *)
+Definition s_inv2 (g : Z) (w : session) : Prop :=
+  s_gap w = g /\
+  (s_last w = None -> s_buf w = []) /\
+  (forall b x, s_buf w = b ++ [x] -> s_last w = Some (ets x)).
+
+Lemma session_close_run : forall g ops w outs s',
+  s_inv2 g w -> run (WS w) ops = (outs, s') ->
+  Forall (closed_by_gap g) (add_closings ops outs).
+Proof.
+  intros g. induction ops as [|o r IH]; intros w outs s' Hi Hr; cbn [run] in Hr.
+  - inv Hr. constructor.
+  - destruct (step (WS w) o) as [s1 x] eqn:Hs. destruct (run s1 r) as [xs s2] eqn:Hr1. inv Hr.
+    pose proof Hi as Hi0. destruct Hi0 as (Hgap & Hnone & Hlast).
+    assert (Hflush : s_inv2 g (mkS (s_gap w) [] None)).
+    { unfold s_inv2. cbn. split; [exact Hgap|]. split; [reflexivity|].
+      intros b x0 E. destruct b; discriminate. }
+    assert (Hone : forall e, s_inv2 g (mkS (s_gap w) [e] (Some (ets e)))).
+    { intros e. unfold s_inv2. cbn. split; [exact Hgap|]. split; [discriminate|].
+      intros b x0 E0. destruct b as [|? [|? ?]]; inv E0. reflexivity. }
+    destruct o as [e|t|t| | ]; cbn [step] in Hs.
+    + unfold s_add in Hs.
+      destruct (s_last w) as [l|] eqn:El; [destruct (_ >? _) eqn:E|]; inv Hs; cbn [of_opt add_closings].
+      * constructor.
+        -- unfold closed_by_gap. cbn [fst snd]. destruct (rev (s_buf w)) as [|x0 b0] eqn:Er; [exact I|].
+           assert (Eb : s_buf w = rev b0 ++ [x0]) by (rewrite <- (rev_involutive (s_buf w)), Er; reflexivity).
+           pose proof (Hlast _ _ Eb) as Hl0. inv Hl0. lia.
+        -- eapply IH; [apply Hone | exact Hr1].
+      * eapply IH; [|exact Hr1]. unfold s_inv2. cbn [s_gap s_buf s_last]. split; [reflexivity|]. split; [discriminate|].
+        intros b x0 E0. apply snoc_inj in E0. destruct E0 as [_ <-]. reflexivity.
+      * eapply IH; [|exact Hr1]. rewrite (Hnone eq_refl). cbn [app]. apply Hone.
+    + unfold s_wm in Hs. destruct (s_last w) as [l|] eqn:El; [destruct (_ && _) eqn:E|]; inv Hs; cbn [of_opt add_closings fst s_flush];
+        (eapply IH; [|exact Hr1]; first [exact Hi | exact Hflush]).
+    + unfold s_expire in Hs. destruct (s_last w) as [l|] eqn:El; [destruct (_ >? _) eqn:E|]; inv Hs; cbn [of_opt add_closings fst s_flush];
+        (eapply IH; [|exact Hr1]; first [exact Hi | exact Hflush]).
+    + inv Hs. cbn [add_closings]. eapply IH; [exact Hflush | exact Hr1].
+    + inv Hs. cbn [add_closings]. eapply IH; [exact Hi | exact Hr1].
+Qed.
